@@ -48,24 +48,11 @@ long w_n, w_k, w_bad, w_allow; int w_opt;
 /* A short option letter is a non-NUL character: entries WITHOUT a short form carry
  * short_opt == 0 and must never be found (unit .nul asks for the NUL "letter", which is what
  * the parser does for a lone "-"). */
-static spif_int32_t find_short_option(char opt)
-__CPROVER_requires(OPTTAB_INV && OPT_HELP_INV && OPT_BAD_ROOM)
 #ifdef U_NUL
-__CPROVER_requires(opt == 0)
+static spif_int32_t find_short_option(char opt) CONTRACT_find_short_option(opt == 0)
 #else
-__CPROVER_requires(opt != 0)
+static spif_int32_t find_short_option(char opt) CONTRACT_find_short_option(opt != 0)
 #endif
-__CPROVER_assigns(spifopt_settings.bad_opts, vg_help_calls)
-/* found: in range, it matches, nothing before it matches, no bad option counted */
-__CPROVER_ensures(__CPROVER_return_value == -1 ||
-                  (0 <= __CPROVER_return_value && __CPROVER_return_value < OPT_N &&
-                   OPT_TAB[__CPROVER_return_value].short_opt == opt && opt != 0 &&
-                   (!((long) vg_k < __CPROVER_return_value) || OPT_TAB[vg_k].short_opt != opt) &&
-                   OPT_NO_BAD(__CPROVER_old(spifopt_settings.bad_opts), __CPROVER_old(vg_help_calls))))
-/* not found: no entry matches, exactly one bad option counted */
-__CPROVER_ensures(__CPROVER_return_value != -1 ||
-                  ((!((long) vg_k < OPT_N) || OPT_TAB[vg_k].short_opt != opt || opt == 0) &&
-                   OPT_ONE_BAD(__CPROVER_old(spifopt_settings.bad_opts), __CPROVER_old(vg_help_calls))))
 ;
 void harness(void)
 {
@@ -86,21 +73,7 @@ void harness(void)
  * characters of opt and opt continues with '=' or ends there.
  * (The harness allocates the strings and ASSIGNS the ghost pointers: cbmc dereferences by
  * points-to sets, an assumed equality with an is_fresh pointer would not be followed.) */
-#define LONG_MATCH_K  (vg_cmp == 0 && vg_n2 <= vg_n1 && (opt[vg_n2] == '=' || opt[vg_n2] == 0))
-static spif_int32_t find_long_option(spif_charptr_t opt)
-__CPROVER_requires(OPTTAB_INV && OPT_HELP_INV && OPT_BAD_ROOM)
-__CPROVER_requires(VOPT_STR_OK(opt, vg_n1) && vg_p1 == (const char *) opt)
-__CPROVER_requires(!((long) vg_k < OPT_N) || (VOPT_STR_OK(vg_p2, vg_n2) && vg_p2 == (const char *) OPT_TAB[vg_k].long_opt))
-__CPROVER_requires((long) vg_k < OPT_N || vg_p2 == NULL)
-__CPROVER_assigns(spifopt_settings.bad_opts, vg_help_calls, vg_lastp, vg_lastn)
-__CPROVER_ensures(__CPROVER_return_value == -1 ||
-                  (0 <= __CPROVER_return_value && __CPROVER_return_value < OPT_N &&
-                   (!((long) vg_k < __CPROVER_return_value) || !LONG_MATCH_K) &&
-                   (!((long) vg_k == __CPROVER_return_value) || LONG_MATCH_K) &&
-                   OPT_NO_BAD(__CPROVER_old(spifopt_settings.bad_opts), __CPROVER_old(vg_help_calls))))
-__CPROVER_ensures(__CPROVER_return_value != -1 ||
-                  ((!((long) vg_k < OPT_N) || !LONG_MATCH_K) &&
-                   OPT_ONE_BAD(__CPROVER_old(spifopt_settings.bad_opts), __CPROVER_old(vg_help_calls))))
+static spif_int32_t find_long_option(spif_charptr_t opt) CONTRACT_find_long_option
 ;
 void harness(void)
 {
